@@ -19,7 +19,7 @@ let parse_text (t : string) : n list =
          | _ -> failwith "bad R piece")
       | None -> bytes_of_tok piece) (String.split_on_char '+' t)
 
-let parse_step (t : string) : caction =
+let parse_step1 (t : string) : caction =
   match t.[0] with
   | 'S' ->
     (match String.split_on_char ',' (String.sub t 1 (String.length t - 1)) with
@@ -33,6 +33,12 @@ let parse_step (t : string) : caction =
   | 'G' -> ClientGone
   | _ -> failwith ("bad step " ^ t)
 
+(* W<k> = one scheduling of the writer task with up to k reads = k writer polls of the model
+   (a poll on an empty queue with live senders is a no-op) *)
+let parse_step (t : string) : caction list =
+  if t.[0] = 'W' && String.length t > 1 then List.init (int_of_string (String.sub t 1 (String.length t - 1))) (fun _ -> WriterPoll)
+  else [parse_step1 t]
+
 let rec drop k l = if k <= 0 then l else match l with [] -> [] | _ :: t -> drop (k - 1) t
 let model_step (s : cst) (a : caction) : cst = match cstep true cap s a with Some s' -> s' | None -> s
 let flags_of (s : cst) : string =
@@ -42,7 +48,10 @@ let flags_of (s : cst) : string =
 let state_of (s : cst) = match s.wst with WActive -> "A" | WTerminated -> "T" | WReaderErr -> "R" | WWriterErr -> "W"
 
 let sse_case (toks : string list) (impl_line : string) : string * string =
-  let acts = List.map parse_step toks in
+  (* optional first token w<k> (short writes of the recording writer): invisible to the model *)
+  let toks = (match toks with t :: r when t.[0] = 'w' -> r | _ -> toks) in
+  let acts_multi = List.map parse_step toks in
+  let acts = List.map List.hd acts_multi in
   (* ---- model ---- *)
   let seen = ref 0 in
   let obs (s : cst) : string =
@@ -50,7 +59,7 @@ let sse_case (toks : string list) (impl_line : string) : string * string =
     let fresh = drop !seen w in
     seen := List.length w;
     Printf.sprintf "%s,%s,%s" (if fresh = [] then "-" else tok_of_bytes fresh) (flags_of s) (state_of s) in
-  let (s, outs) = List.fold_left (fun (s, acc) a -> let s' = model_step s a in (s', obs s' :: acc)) (cinit, []) acts in
+  let (s, outs) = List.fold_left (fun (s, acc) al -> let s' = List.fold_left model_step s al in (s', obs s' :: acc)) (cinit, []) acts_multi in
   let rec drain k s = if k = 0 then s else let s' = model_step s WriterPoll in if s' = s then s else drain (k - 1) s' in
   let s1 = drain 80 s in
   let f1 = obs s1 in
